@@ -187,7 +187,8 @@ def materialise(case, root):
 
 def gen_bucket_case(rng, tier, cls):
     n_idx = rng.randint(0, 40)
-    idtype = rng.choice(["int", "int", "str", "tuple"])
+    # negint / negtuple: ids -1, -2, ... (CPython: hash(-1) == hash(-2)); bigint: 0 and 2**61 - 1 hash alike too
+    idtype = rng.choice(["int", "int", "str", "tuple", "negint", "negtuple", "bigint"])
     nb = rng.randint(1, 6)
     if cls == "bucket_sampler_hostile":
         how = rng.choice(["size1", "one_bucket", "own_bucket", "oversized", "empty", "repeats"])
@@ -224,6 +225,12 @@ def bucket_id(idtype, b):
         return "b%02d" % b
     if idtype == "tuple":
         return (b // 2, b % 2)
+    if idtype == "negint":
+        return -(b + 1)
+    if idtype == "negtuple":
+        return (-(b + 1), "x")
+    if idtype == "bigint":
+        return b * (2 ** 61 - 1)
     return b
 
 
